@@ -60,13 +60,13 @@ fn exec_cfg(s: &mut Src, w: &Workload) -> [CbCfg; NCB] {
     cfg
 }
 
-fn setup(s: &mut Src, bw_analysis: bool, sk: SupKind, sh: &RShape, xs: &XShape, limit: u64) -> (Exec, Slots, Workload) {
+fn setup<const BW: bool>(s: &mut Src, sk: SupKind, sh: &RShape, xs: &XShape, limit: u64) -> (Exec, Slots, Workload) {
     let sup = any_sup(s, sk, sh.pmask);
     let w = any_workload2(s, sh);
     // self-consistency: the singleton analysis of each callback reproduces its bound
-    let r0 = with_supply!(sup, |x| if bw_analysis { call_bw(&x, &w, &[0], limit) } else { call_rr(&x, &w, &[0], limit) });
+    let r0 = with_supply!(sup, |x| if BW { call_bw(&x, &w, &[0], limit) } else { call_rr(&x, &w, &[0], limit) });
     assume(r0 == Ok(Duration::from(w.cb[0].r)));
-    let r1 = with_supply!(sup, |x| if bw_analysis { call_bw(&x, &w, &[1], limit) } else { call_rr(&x, &w, &[1], limit) });
+    let r1 = with_supply!(sup, |x| if BW { call_bw(&x, &w, &[1], limit) } else { call_rr(&x, &w, &[1], limit) });
     assume(r1 == Ok(Duration::from(w.cb[1].r)));
     let cfg = exec_cfg(s, &w);
     let mut inst = [Inst::none(); NCB];
@@ -79,7 +79,7 @@ fn setup(s: &mut Src, bw_analysis: bool, sk: SupKind, sh: &RShape, xs: &XShape, 
 macro_rules! rr_exec_harness {
     ($name:ident, $unwind:literal, $h:tt, $bw:literal, $sk:expr, $rshape:expr, $xshape:expr, $limit:literal) => {
         harness!($name, $unwind, |s| {
-            let (mut ex, slots, w) = setup(s, $bw, $sk, &$rshape, &$xshape, $limit);
+            let (mut ex, slots, w) = setup::<$bw>(s, $sk, &$rshape, &$xshape, $limit);
             assume(ex.last_arrival(0) + w.cb[0].r <= $h && ex.last_arrival(1) + w.cb[1].r <= $h);
             let mut ti = 0usize;
             rep!($h, {
